@@ -8,6 +8,7 @@ OBJ = "xsdata.utils.objects"
 def register(db):
     collab.declare(db)
     P = ["C18"]
+    register_write(db)
     # ------------------------------------------------------------------ literals
     def qname(mk, base):
         o = mk.obj("xml.etree.ElementTree:QName", {"text": "str"})
@@ -266,4 +267,40 @@ def register(db):
              "and result[8] == ': ' and result[9] == uf('rendered', 'str', the_val2) and result[10] == ',\\n' and result[11] == '}'"),
         ],
         raises={}, properties=P,
+    ))
+
+
+def register_write(db):
+    """PycodeSerializer.write: the emitted text is - the import lines built from exactly the set of types the rendering
+    collected, a blank line, `<var_name> = `, the rendering, a newline - in that order, so that executing it binds the
+    requested variable and every name the rendering uses has been imported before."""
+    from pyvc.contracts import pure_result
+    from pyvc.values import Opaque
+    PS = "xsdata.formats.dataclass.serializers.code:PycodeSerializer"
+    assume_method(db, "StringIO", "write", mutates=True)
+    assume_method(db, "StringIO", "getvalue", returns="str")
+    assume_method(db, "TextIO", "write", mutates=True)
+
+    def string_io(ex, st, args, kwargs):
+        yield st, Opaque("StringIO")
+
+    from pyvc import builtins_calls as bc
+    bc.FUNCS["io.StringIO"] = string_io  # an abstract text buffer: writes and getvalue go to the ghost trace
+    db.add(Contract(f"{PS}.build_imports", variant="call-view", trusted=True, call_default=True, params={}, returns="str", raises={},
+                    note="call-site view (the function itself is verified: top-level names, nothing for builtins)"))
+
+    def serializer(mk, base):
+        return mk.obj(PS, {"context": "opaque:XmlContext"})
+
+    RO, BI, W = "PycodeSerializer.repr_object", "PycodeSerializer.build_imports", "TextIO.write"
+    db.add(Contract(
+        f"{PS}.write", params={"self": serializer, "out": "opaque:TextIO", "obj": "opaque:Any", "var_name": "str"},
+        ensures=[("the-object-is-rendered-once-at-the-top-level", f"called('{RO}') == 1 and call_arg('{RO}', 1) is obj and call_arg('{RO}', 2) == 0"),
+                 ("imports-are-built-from-the-types-the-rendering-collected", f"called('{BI}') == 1 and call_arg('{BI}', 1) is call_arg('{RO}', 3) and called_before('{RO}', '{BI}')"),
+                 ("imports-then-a-blank-line-then-the-assignment-then-a-newline",
+                  f"called('{W}') == 5 and call_arg('{W}', 0, 0) == call_result('{BI}') and call_arg('{W}', 0, 1) == '\\n\\n' and "
+                  f"call_arg('{W}', 0, 2) == var_name + ' = ' and call_arg('{W}', 0, 3) == call_result('StringIO.getvalue') and call_arg('{W}', 0, 4) == '\\n'"),
+                 ("every-chunk-of-the-rendering-goes-to-the-buffer-that-is-emitted",
+                  f"called('StringIO.write') == 1 and call_arg('StringIO.write', 0) == call_result('{RO}')[0] and called('StringIO.getvalue') == 1")],
+        raises={}, properties=["C18"],
     ))
